@@ -7,6 +7,7 @@ package main
 import (
 	"fmt"
 	"github.com/onheap/eval"
+	"os"
 )
 
 type Log struct {
@@ -161,6 +162,9 @@ func maskRec(mask int) M {
 var foreignConsts bool
 
 func newConf(o ConfOpts, l *Log) (*eval.Config, string) {
+	if o.How == "api" {
+		return newConfAPI(o, l), ""
+	}
 	cc := eval.NewConfig()
 	if !o.Undefined {
 		for _, v := range varNames {
@@ -271,6 +275,91 @@ func newConf(o ConfOpts, l *Log) (*eval.Config, string) {
 		}
 	}
 	return cc, dir
+}
+
+// newConfAPI builds the same configuration through the library's own constructors: NewConfig with Option
+// values (Optimizations in several equivalent spellings, EnableUndefinedVariable, EnableReportEvent /
+// EnableDebug, EnableInfixNotation, RegVarAndOp for variables and operators, ExtendConf).
+func newConfAPI(o ConfOpts, l *Log) *eval.Config {
+	on := func(j int) bool { return o.Mask&(1<<uint(j)) != 0 }
+	var enabled, disabled []eval.CompileOption
+	for j, n := range optNames {
+		if on(j) {
+			enabled = append(enabled, n)
+		} else {
+			disabled = append(disabled, n)
+		}
+	}
+	var opts []eval.Option
+	switch o.Spell % 4 {
+	case 0: // everything off, then the enabled ones on
+		opts = append(opts, eval.Optimizations(false))
+		if len(enabled) > 0 {
+			opts = append(opts, eval.Optimizations(true, enabled...))
+		}
+	case 1: // everything on (spelled with the Optimize pseudo-option), then the disabled ones off
+		opts = append(opts, eval.Optimizations(true, eval.Optimize))
+		if len(disabled) > 0 {
+			opts = append(opts, eval.Optimizations(false, disabled...))
+		}
+	case 2: // one call per optimizer, in reverse order, after a contrary blanket call
+		opts = append(opts, eval.Optimizations(!on(0)))
+		for j := len(optNames) - 1; j >= 0; j-- {
+			opts = append(opts, eval.Optimizations(on(j), optNames[j]))
+		}
+	default: // names that are not optimizers are ignored by Optimizations
+		opts = append(opts, eval.Optimizations(true), eval.Optimizations(false, eval.ReportEvent, eval.Debug))
+		if len(disabled) > 0 {
+			opts = append(opts, eval.Optimizations(false, disabled...))
+		}
+	}
+	vals := map[string]interface{}{}
+	if !o.Undefined {
+		for _, v := range varNames {
+			vals[v] = 0
+		}
+	} else {
+		opts = append(opts, eval.EnableUndefinedVariable)
+	}
+	ops := customOps(l)
+	for n, f := range ops {
+		if len(n)%2 == 0 {
+			vals[n] = f // through RegVarAndOp
+		}
+	}
+	opts = append(opts, eval.RegVarAndOp(vals))
+	switch o.Events {
+	case "report":
+		opts = append(opts, eval.EnableReportEvent)
+	case "debug":
+		opts = append(opts, eval.EnableDebug)
+	}
+	if o.Infix {
+		opts = append(opts, eval.EnableInfixNotation)
+	}
+	cc := eval.NewConfig(opts...)
+	for n, f := range ops {
+		if len(n)%2 == 1 {
+			if err := eval.RegisterOperator(cc, n, f); err != nil {
+				fmt.Fprintln(os.Stderr, "RegisterOperator refused a fresh name:", n, err)
+			}
+		}
+	}
+	if !o.NoStateless {
+		cc.StatelessOperators = append(cc.StatelessOperators, "p")
+	}
+	cc.ConstantMap["K"] = int64(3)
+	cc.ConstantMap["KT"] = true
+	if foreignConsts {
+		cc.ConstantMap["KI"] = int(3)
+	}
+	for k, v := range o.Costs {
+		cc.CostsMap[k] = v
+	}
+	if o.Spell%2 == 1 {
+		return eval.NewConfig(eval.ExtendConf(cc)) // a config extended from another
+	}
+	return cc
 }
 
 // progJSON renders an exported flat program in the specification's node format
